@@ -35,7 +35,7 @@
 //                index, subscriber table without K's entry), every other session's liveness, _parameters, _subscriptions, limits and flags
 //   detach       after K's connection ended (d / every cut): no node under K's directory, host node present iff another session uses it,
 //                no DataNode::GetSubscribers() table and no cached table of the pool mentions K, no client mirror still holds a K node
-//   as-if-never  tree, subscriber tables, parameters of the others and every client's mirror equal those of a baseline run of the
+//   as-if-never  (at a departure, at every cut, and for every unprivileged session a PR_COMMAND_KICK removed) tree, subscriber tables, parameters of the others and every client's mirror equal those of a baseline run of the
 //                same history without session K (unprivileged K only)
 //   k ORACLE FAIL <what> op#j ...
 #include "refl_common.h"
@@ -928,9 +928,22 @@ static void RunCase(long k, const std::string & line)
       const bool applies = (main->Alive(K))&&(!IsPrivHost(main->hosts[K]));
       std::string before;
       if ((isCmd)&&(applies)) before = main->ForeignView(K);
+      std::vector<bool> aliveBefore(main->hosts.size(), false);
+      if (isCmd) for (size_t x=0; x<main->hosts.size(); x++) aliveBefore[x] = main->Alive((int)x);
       bool valid = false;
       const std::string st = main->Exec(ops[j], &valid, NULL);
       if (!quietCase) printf("%ld %d %s\n", k, (int)j, st.c_str());
+      // sessions that a privileged kick of this op removed: as if they had never been there
+      if (isCmd) for (size_t x=0; x<aliveBefore.size(); x++) if ((aliveBefore[x])&&((int)x != K)&&(!main->Alive((int)x))&&(!IsPrivHost(main->hosts[x])))
+      {
+         const int X = (int) x;
+         Run base(X);
+         for (size_t i=0; i<=j; i++) (void) base.Exec(ops[i], NULL, NULL);
+         if ((base.ObsWithout(X) != main->ObsWithout(X))&&(getenv("ISO_DEBUG"))) fprintf(stderr, "BASE: %s\nMAIN: %s\n", base.ObsWithout(X).c_str(), main->ObsWithout(X).c_str());
+         if ((base.ObsWithout(X) != main->ObsWithout(X))&&(NormSorted(base.ObsWithout(X)) == NormSorted(main->ObsWithout(X)))) printf("%ld ORACLE FAIL %s op#%d\n", k, RECYCLED, (int)j);
+         else if (base.ObsWithout(X) != main->ObsWithout(X)) printf("%ld ORACLE FAIL as-if-never op#%d c%d (kicked) state differs from the run without the session\n", k, (int)j, X);
+         else if ((!base.quietUsed)&&(!main->quietUsed)&&(base.MirrorsWithout(X) != main->MirrorsWithout(X))) printf("%ld ORACLE FAIL as-if-never op#%d c%d (kicked) a client mirror differs from the run without the session\n", k, (int)j, X);
+      }
       else if (st.find("NO-QUIESCENCE") != std::string::npos) printf("%ld ORACLE FAIL no-quiescence op#%d\n", k, (int)j);
       if ((isCmd)&&(applies)&&(valid)&&(main->w.alive(main->widx[K])))
       {
